@@ -181,6 +181,16 @@ func replayMain(args []string) {
 			os.Exit(1)
 		}
 	}
+	if rf.Violation.Clause == "process-crash" {
+		self, _ := os.Executable()
+		out, _ := exec.Command(self, "replaychild", args[0]).CombinedOutput()
+		if strings.Contains(string(out), "RUN-COMPLETED") {
+			fmt.Printf("NOT-REPRODUCED property=%s: the case in %s no longer kills the process\n", rf.Property, args[0])
+			os.Exit(0)
+		}
+		fmt.Printf("%s\nREPRODUCED class=%s (the process evaluating the case died)\nVIOLATION property=%s replay=%s\n", firstLines(string(out), 6), rf.Class, rf.Property, args[0])
+		os.Exit(1)
+	}
 	if rf.Violation.Clause == "across-processes" {
 		self, _ := os.Executable()
 		v, log = crossProcessCheck(self, rf.Case, filepath.Dir(args[0]))
@@ -300,13 +310,15 @@ func checkMain(args []string) {
 	var wg sync.WaitGroup
 	var werr error
 	var mu sync.Mutex
+	var crashes []*Found
 	for w := 0; w < *workers; w++ {
 		wg.Add(1)
 		go func(w int) {
 			defer wg.Done()
 			outFile := filepath.Join(*scratch, fmt.Sprintf("worker-%s-%d.json", *prop, w))
+			progFile := filepath.Join(*scratch, fmt.Sprintf("progress-%s-%d", *prop, w))
 			cmd := exec.Command(self, "worker", "-prop", *prop, "-seed", fmt.Sprint(*seed), "-w", fmt.Sprint(w), "-n", fmt.Sprint(*workers),
-				"-runs", fmt.Sprint(cfg.Runs), "-budget", fmt.Sprint(cfg.Budget), "-out", outFile)
+				"-runs", fmt.Sprint(cfg.Runs), "-budget", fmt.Sprint(cfg.Budget), "-out", outFile, "-progress", progFile)
 			cmd.Env = append(os.Environ(), "GOMAXPROCS=2", "GOMEMLIMIT=3GiB")
 			var stderr bytes.Buffer
 			cmd.Stderr = &stderr
@@ -315,6 +327,15 @@ func checkMain(args []string) {
 			mu.Lock()
 			defer mu.Unlock()
 			if rerr != nil {
+				// the worker process died. If one run kills a fresh process
+				// every time, that is a verdict about the tree under test (a
+				// fatal runtime error cannot be recovered: stack overflow,
+				// concurrent map writes, out of memory), not about the harness.
+				if f := confirmProcessCrash(self, *prop, *seed, progFile, *scratch, w, stderr.String()); f != nil {
+					crashes = append(crashes, f)
+					outs[w] = &WorkerOut{EndedBy: "process-crash"}
+					return
+				}
 				werr = fmt.Errorf("worker %d produced no result (%v): %s", w, err, tail(stderr.String(), 2000))
 				return
 			}
@@ -408,6 +429,11 @@ func checkMain(args []string) {
 	if xproc != nil {
 		found[xproc.V.Class()] = xproc
 	}
+	for _, f := range crashes {
+		if _, ok := found[f.V.Class()]; !ok {
+			found[f.V.Class()] = f
+		}
+	}
 	// 5. violations: known-finding filter, shrink, replay file, replay check
 	classes := make([]string, 0, len(found))
 	for cl := range found {
@@ -425,7 +451,7 @@ func checkMain(args []string) {
 		// minimise within a total budget: many classes usually share one root
 		// cause, and the first few minimised replays are what a reader needs
 		min, mv, mlog := f.Case, &f.V, f.Log
-		if time.Since(shrinkStart).Seconds() < cfg.ShrinkSecs*3 && f.V.Clause != "across-processes" {
+		if time.Since(shrinkStart).Seconds() < cfg.ShrinkSecs*3 && f.V.Clause != "across-processes" && f.V.Clause != "process-crash" {
 			min, mv, mlog = shrink(e, *f, cfg)
 		}
 		path := writeReplay(*verif, *prop, *seed, *tier, f, min, mv, mlog)
@@ -724,4 +750,50 @@ func attributeCrossProcess(self string, seed uint64, runs int64, scratch string)
 		}
 	}
 	return nil
+}
+
+func firstLines(s string, n int) string {
+	l := strings.Split(s, "\n")
+	if len(l) > n {
+		l = l[:n]
+	}
+	return strings.Join(l, "\n")
+}
+
+// confirmProcessCrash re-executes, twice and in fresh processes, the run a
+// dead worker was working on. If both die too, the last case they announced is
+// returned as a finding.
+func confirmProcessCrash(self, prop string, seed uint64, progFile, scratch string, w int, stderr string) *Found {
+	b, err := os.ReadFile(progFile)
+	if err != nil {
+		return nil
+	}
+	run := strings.TrimSpace(string(b))
+	cf := filepath.Join(scratch, fmt.Sprintf("crash-case-%s-%d.json", prop, w))
+	var last []byte
+	for i := 0; i < 2; i++ {
+		os.Remove(cf)
+		cmd := exec.Command(self, "runone", "-prop", prop, "-seed", fmt.Sprint(seed), "-run", run, "-casefile", cf)
+		cmd.Env = append(os.Environ(), "GOMEMLIMIT=3GiB")
+		out, _ := cmd.CombinedOutput()
+		if strings.Contains(string(out), "RUN-COMPLETED") {
+			return nil
+		}
+		last = out
+	}
+	raw, err := os.ReadFile(cf)
+	if err != nil {
+		return nil
+	}
+	what := "the process died"
+	for _, l := range strings.Split(string(last), "\n") {
+		if strings.HasPrefix(l, "fatal error:") || strings.HasPrefix(l, "runtime:") || strings.HasPrefix(l, "panic:") {
+			what = strings.TrimSpace(l)
+			break
+		}
+	}
+	var r int64
+	fmt.Sscan(run, &r)
+	v := Violation{Prop: prop, Clause: "process-crash", Where: strings.ReplaceAll(what, " ", "-"), Detail: fmt.Sprintf("evaluating this case kills the process, twice out of two fresh processes: %s. A fatal runtime error cannot be recovered: a real jd process would die the same way with a Go runtime dump.", what)}
+	return &Found{Run: r, V: v, Case: raw, Log: []string{firstLines(string(last), 12)}, Count: 1}
 }
